@@ -2823,13 +2823,21 @@ class AggregateBase(UnitsManaged, Saveable, OpenSystem):
                     # removed
 
 
-                # we get this in SITE BASIS
-                ham = HH.data
+                # we need this in SITE BASIS, even if we are asked from
+                # inside of a basis context; SS transforms from the site
+                # basis to the current one
+                SS = numpy.eye(Ndim)
+                for ZZ in Manager().basis_transformations[1:]:
+                    SS = numpy.dot(SS, ZZ)
+                S1 = numpy.linalg.inv(SS)
+                ham = numpy.dot(SS, numpy.dot(HH.data, S1))
 
                 rho0 = self._thermal_population(temperature,
                                                 subtract=re,
                                                 relaxation_hamiltonian=ham,
                                                 start=start)
+                # the state is returned in the current basis
+                rho0 = numpy.dot(S1, numpy.dot(rho0, SS))
 
             elif relaxation_theory_limit == "weak_coupling":
 
